@@ -17,7 +17,7 @@ import env
 import gen
 import refavro
 import sched
-from streams import SimPipe, ReadOnlySeq, WriteOnlySink
+from streams import SimPipe, ReadOnlySeq, WriteOnlySink, buffered_seq
 from runner import Violation, jsonable
 from props import common
 
@@ -46,7 +46,7 @@ COMPONENTS = {
     "stub": ["WriteOnlySink", "ReadOnlySeq", "SimPipe", "scheduler"],
     "oracle": ["submitted records via refavro.normal_eq", "call log of the simulated streams"],
 }
-PROBES = ["pair_bytesio", "pair_realfile", "pair_sink_seq", "pair_pipe", "codec_null", "codec_deflate",
+PROBES = ["input_buffered_reader", "pair_bytesio", "pair_realfile", "pair_sink_seq", "pair_pipe", "codec_null", "codec_deflate",
           "codec_bzip2", "codec_xz", "empty_file", "interval_1", "record_eq_interval", "record_gt_interval",
           "zero_byte_block", "parsed_schema", "metadata_given", "marker_default", "recode_with_first_files_metadata",
           "profile_many_records", "profile_huge_record"]
@@ -141,15 +141,28 @@ def run_one(ch, ctx):
         info = {"pair": "sink->seq"}
         sink = WriteOnlySink()
         _write(F, sc, sink, desc, info)
-        if sink.forbidden or set(sink.ops()) - {"write", "flush", "seekable"}:
+        if set(sink.ops()) - {"write", "flush", "seekable"}:
             raise Violation("stream-calls", "writer-used-other-calls", detail=dict(info, ops=sink.ops(), forbidden=sink.forbidden), scenario=desc)
         data = sink.getvalue()
-        src = ReadOnlySeq(data)
-        meta, recs = _guard_read(F, src, desc, info)
-        if src.forbidden or set(src.ops()) - {"read"}:
-            raise Violation("stream-calls", "reader-used-other-calls", detail=dict(info, ops=src.ops(), forbidden=src.forbidden), scenario=desc)
-        if src.remaining:
-            raise Violation("roundtrip", "bytes-left-unread", detail=dict(info, left=src.remaining), scenario=desc)
+        if sink.flushed != len(data):
+            # a buffering pipe / socket object would still hold these bytes when writer() returns
+            raise Violation("stream-calls", "output-not-flushed-on-return", detail=dict(info, written=len(data), flushed=sink.flushed), scenario=desc)
+        if ch.chance(30):
+            # a real io.BufferedReader with a tiny buffer (open(path, "rb") with the boundary every few bytes)
+            bufsize = ch.pick([1, 2, 3, 5, 8, 13, 64, 1000])
+            ctx.probe("input_buffered_reader")
+            info["input"] = "io.BufferedReader(buffer_size=%d)" % bufsize
+            src = buffered_seq(data, bufsize)
+            meta, recs = _guard_read(F, src, desc, info)
+            left = len(data) - src.tell()
+        else:
+            src = ReadOnlySeq(data)
+            meta, recs = _guard_read(F, src, desc, info)
+            if set(src.ops()) - {"read"}:
+                raise Violation("stream-calls", "reader-used-other-calls", detail=dict(info, ops=src.ops(), forbidden=src.forbidden), scenario=desc)
+            left = src.remaining
+        if left:
+            raise Violation("roundtrip", "bytes-left-unread", detail=dict(info, left=left), scenario=desc)
     else:
         ctx.probe("pair_pipe")
         cap = ch.pick([1, 3, 16, 64, 4096, None])
@@ -162,10 +175,12 @@ def run_one(ch, ctx):
         info = {"pair": "pipe", "capacity": cap, "monitor": monitor, "strategy": list(strategy)}
         s = sched.Scheduler(ch.fork("sched"), strategy, max_steps=3_000_000, monitor=monitor)
         pipe = SimPipe(s, cap)
+        unflushed = []
 
         def wtask():
             try:
                 common.fa_write(sc, pipe.w)
+                unflushed.append(pipe.w.unflushed)
             finally:
                 pipe.w.close()
             return "done"
@@ -186,11 +201,13 @@ def run_one(ch, ctx):
         if res["reader"][0] != "ok":
             raise Violation("roundtrip", "reader-raises", detail=dict(info, exc=jsonable(res["reader"][1])), scenario=desc)
         meta, recs = res["reader"][1]
+        if unflushed and unflushed[0]:
+            raise Violation("stream-calls", "output-not-flushed-on-return", detail=dict(info, unflushed=unflushed[0]), scenario=desc)
         if pipe.buf:
             raise Violation("roundtrip", "bytes-left-unread", detail=dict(info, left=len(pipe.buf)), scenario=desc)
-        if pipe.r.forbidden or set(pipe.r.ops()) - {"read"}:
+        if set(pipe.r.ops()) - {"read"}:
             raise Violation("stream-calls", "reader-used-other-calls", detail=dict(info, ops=pipe.r.ops(), forbidden=pipe.r.forbidden), scenario=desc)
-        if pipe.w.forbidden or set(pipe.w.ops()) - {"write", "flush", "seekable", "close"}:
+        if set(pipe.w.ops()) - {"write", "flush", "seekable", "close"}:
             raise Violation("stream-calls", "writer-used-other-calls", detail=dict(info, ops=pipe.w.ops(), forbidden=pipe.w.forbidden), scenario=desc)
         ctx.steps += s.step
         ctx.fault("preempt", len(s.switches))
